@@ -9,8 +9,8 @@ from pymap.bytes import MaybeBytes
 from pymap.concurrent import Event
 from pymap.config import IMAPConfig
 from pymap.context import socket_info, connection_exit
-from pymap.exceptions import NotAllowedError, NotSupportedError, \
-    CloseConnection
+from pymap.exceptions import MailboxNotFound, NotAllowedError, \
+    NotSupportedError, CloseConnection
 from pymap.fetch import MessageAttributes
 from pymap.interfaces.login import LoginInterface
 from pymap.interfaces.session import SessionInterface
@@ -285,7 +285,10 @@ class ConnectionState:
 
     async def do_close(self, cmd: CloseCommand) -> _CommandRet:
         if not self.selected.readonly:
-            await self.session.expunge_mailbox(self.selected)
+            try:
+                await self.session.expunge_mailbox(self.selected)
+            except MailboxNotFound:
+                pass  # deleted by somebody else, nothing left to expunge
         self._selected = None
         return ResponseOk(cmd.tag, cmd.command + b' completed.'), None
 
